@@ -149,7 +149,7 @@ var c03Ops = []string{
 	"sign_jwt", "sign_jwt", "sign_jwt", "sign_jws", "sign_jws", "sign_jws", "sign_jws",
 	"inproc_sign_jws", "inproc_sign_jws", "inproc_sign_jws", "inproc_sign_jwt", "inproc_link", "inproc_link",
 	"inproc_jwk_zoo", "inproc_jwk_zoo", "lc_cycle", "lc_cycle", "lc_new", "lc_use", "lc_use", "lc_delete",
-	"hostile_kid", "hostile_kid", "migrate_again",
+	"hostile_kid", "hostile_kid", "migrate_again", "import_key", "import_key",
 	"encrypt_jwe", "encrypt_jwe", "decrypt_jwe", "decrypt_jwe",
 	"dpop_create", "dpop_create", "dpop_validate",
 	"token_flow", "introspect",
@@ -776,6 +776,9 @@ func (s *c03State) step(st c03Step) {
 
 	case "migrate_again":
 		s.migrateAgain(st)
+
+	case "import_key":
+		s.importKey(st)
 
 	case "encrypt_jwe":
 		var receiver string
